@@ -27,6 +27,29 @@ Pick(k) == LET v == RandomElement(XVars)  e == RandomElement(XEapis) IN
             prog |-> [eb |-> Fixed(v) \o RandomElement(Pre(v)) \o RandomElement(Inh) \o RandomElement(Post(v)),
                       ecl |-> [n \in {"a", "b"} |-> IF n = "a" THEN RandomElement(SeqsUpTo(AStmts(v), MaxA))
                                                      ELSE RandomElement(SeqsUpTo(BStmts(v), MaxB))]]]
-Chosen(n) == IF n = 0 THEN Cases(XVars, XEapis) ELSE {Pick(k) : k \in 1..n}
+\* the EAPI boundaries of the property, completely: key classes that switch (RDEPEND default <= 3,
+\* REQUIRED_USE >= 4, BDEPEND >= 7, IDEPEND / PROPERTIES / RESTRICT accumulation >= 8) and phase sets
+Ecl(a, b) == [n \in {"a", "b"} |-> IF n = "a" THEN a ELSE b]
+Chain(v) == [eb |-> <<SetS(v, <<"e1">>), InheritS(<<"a">>), AppS(v, <<"e4">>)>>,
+             ecl |-> Ecl(<<SetS(v, <<"a1">>), InheritS(<<"b">>), AppS(v, <<"a2">>)>>, <<SetS(v, <<"b1", "b9">>)>>)]
+Boundary ==
+       {[eapi |-> e, var |-> "RDEPEND",
+         prog |-> [eb |-> <<SetS("DEPEND", <<"d0">>), InheritS(<<"a">>)>>,
+                   ecl |-> Ecl(<<SetS("RDEPEND", <<"a1">>), SetS("DEPEND", <<"a3">>)>>, <<>>)]] : e \in {3, 4}}
+  \cup {[eapi |-> e, var |-> "RDEPEND",
+         prog |-> [eb |-> <<SetS("DEPEND", <<"d0">>), SetS("RDEPEND", <<>>), InheritS(<<"a">>)>>,
+                   ecl |-> Ecl(<<SetS("DEPEND", <<"a3">>)>>, <<>>)]] : e \in {0, 3}}
+  \cup {[eapi |-> e, var |-> v, prog |-> Chain(v)] : <<v, e>> \in {"RESTRICT", "PROPERTIES", "IDEPEND"} \X {7, 8}}
+  \cup {[eapi |-> e, var |-> "BDEPEND", prog |-> Chain("BDEPEND")] : e \in {6, 7}}
+  \cup {[eapi |-> e, var |-> "REQUIRED_USE", prog |-> Chain("REQUIRED_USE")] : e \in {3, 4}}
+  \cup {[eapi |-> e, var |-> "IUSE",
+         prog |-> [eb |-> <<PhaseS("src_prepare"), PhaseS("pkg_pretend"), InheritS(<<"a">>), PhaseS("src_frobnicate")>>,
+                   ecl |-> Ecl(<<ExportS("src_configure"), InheritS(<<"b">>)>>, <<PhaseS("pkg_setup")>>)]] : e \in {1, 2, 3, 4}}
+  \cup {[eapi |-> e, var |-> "IUSE",
+         prog |-> [eb |-> <<InheritS(<<"a">>), PhaseS("src_frobnicate")>>, ecl |-> Ecl(<<PhaseS("pkg_pretend")>>, <<>>)]] : e \in {3, 4}}
+Tag(cs, t) == {[tag |-> t, eapi |-> c.eapi, var |-> c.var, prog |-> c.prog] : c \in cs}
+\* NSample = 0: the whole family; n > 0: the boundary cases and n random members
+Chosen(n) == IF n = 0 THEN Tag(Cases(XVars, XEapis), "family")
+             ELSE Tag(Boundary, "boundary") \cup Tag({Pick(k) : k \in 1..n}, "pick")
 ASSUME LET cs == Chosen(NSample) IN (\A c \in cs : WellFormed(c.prog)) /\ ndJsonSerialize(IOEnv.OUT, SetToSeq(cs))
 =============================================================================
